@@ -107,6 +107,18 @@ class Repo:
                 open(os.path.join(r, d, "%s %03d.txt" % (rng.choice(["f", "é", "z z"]), i)), "wb").write(b"bulk %d %d\n" % (self.serial, i))
             self.serial += 1
             return ("bulk", d, k)
+        if op == "bulkwide":
+            # several hundred new files whose names are mostly multi-byte characters (2, 3 and 4 bytes): each of git's path lists
+            # then runs to tens of kilobytes, so that it arrives in several pipe reads whose boundaries fall inside characters
+            k = rng.choice([260, 333, 410])
+            d = rng.choice(["a/宽", "b/gén", "d/many"])
+            os.makedirs(os.path.join(r, d), exist_ok=True)
+            stems = ["é", "日本語", "\U0001F600", "ü", "名前", "ß"]
+            for i in range(k):
+                nm = "".join(rng.choice(stems) for _ in range(rng.randint(6, 12))) + "%03d" % i
+                open(os.path.join(r, d, nm), "wb").write(b"wide %d %d\n" % (self.serial, i))
+            self.serial += 1
+            return ("bulkwide", d, k)
         if op == "big":
             # a file larger than any read buffer (3 MiB); a later "bigtail" changes only bytes far beyond the first megabytes
             import random as _r
@@ -237,7 +249,38 @@ def failing_update(ctx, repo, rng, trail):
                sample={"ops": trail[-4:], "rc": rc, "show_before": before, "show_after": after} if before is None else None,
                detail={"rc": rc, "show_before": before, "show_after": after, "analyze": an if before is None else None})
 
-def scenario(ctx, sseed, focus):
+STRACE = shutil.which("strace")
+def write_error_update(ctx, repo, rng, trail):
+    """The file system refuses the data (no space left: every write(2) to the checkpoint file or its temporary fails with ENOSPC, injected
+    by strace).  Either the update reports the failure - then the store is as it was - or it reports success - then show returns what it
+    printed.  Exit status 0 with nothing stored is neither."""
+    if not STRACE:
+        ctx.count("strace_unavailable"); return
+    before = show_checkpoint(repo)
+    tdir = os.path.join(repo.repo, "monorail-out", "tracking")
+    args = ["checkpoint", "update"] + (["--pending"] if rng.random() < 0.5 else [])
+    e = dict(os.environ); e.update(vlib.GIT_ENV)
+    cmd = [STRACE, "-f", "-o", "/dev/null", "-e", "trace=write,pwrite64,writev", "-e", "inject=write,pwrite64,writev:error=ENOSPC",
+           "-P", os.path.join(tdir, "checkpoint.json.zst"), "-P", os.path.join(tdir, "checkpoint.json.zst.tmp"),
+           vlib.BIN_MONORAIL, "-f", os.path.join(repo.repo, "Monorail.json")] + args
+    try: r = subprocess.run(cmd, cwd=repo.repo, env=e, capture_output=True, timeout=120)
+    except subprocess.TimeoutExpired:
+        ctx.count("strace_timeout"); return
+    if b"ptrace" in r.stderr and r.returncode not in (0, 1, 2):
+        ctx.count("strace_unusable"); return
+    trail.append(["update_with_write_errors", args[2:]])
+    printed = None
+    for line in reversed(r.stdout.decode("utf-8", "replace").strip().splitlines()):
+        try: printed = json.loads(line).get("checkpoint"); break
+        except Exception: continue
+    after = show_checkpoint(repo)
+    ok = (after == printed and printed is not None) if r.returncode == 0 else (after == before)
+    ctx.count("update_with_write_errors_%s" % ("reported_success" if r.returncode == 0 else "reported_failure"))
+    ctx.record({"trail": list(trail), "what": "checkpoint update while every write to the checkpoint file fails (ENOSPC)"}, True, ok, ok, True,
+               sample={"ops": trail[-3:], "rc": r.returncode, "show_before": before, "show_after": after},
+               detail={"rc": r.returncode, "printed": printed, "show_before": before, "show_after": after, "stderr": r.stderr.decode("utf-8", "replace")[-300:]})
+
+def scenario(ctx, sseed, focus, force_huge=False):
     import random
     rng = random.Random(sseed)
     # one history in four lives in a SHA-256 repository (object names of 64 hex digits)
@@ -246,20 +289,50 @@ def scenario(ctx, sseed, focus):
     ctx.count("object_format_" + (fmt or "sha1"))
     trail = [["scenario_seed", sseed, focus], ["object_format", fmt or "sha1"]]
     n_ops = rng.randint(8, 16)
+    side = random.Random(sseed ^ 0x5bd1e995)          # (a stream of its own: stored scenario seeds keep their meaning)
+    wide_at = side.randrange(n_ops) if side.random() < 0.2 else None
+    h = side.random() < 0.04
+    huge_at = side.randrange(n_ops) if (force_huge or (h and not ctx.quick())) else None
     try:
         # a little history first
         for _ in range(rng.randint(1, 4)):
             trail.append(list(repo.apply(rng, "write"))); 
             if rng.random() < 0.7: trail.append(list(repo.apply(rng, "commit")))
         do_update(ctx, repo, rng, trail, focus, with_id=(rng.choice(repo.commits) if rng.random() < 0.3 else None))
+        if side.random() < 0.15:
+            # a file named HEAD in the repository root
+            open(os.path.join(repo.repo, "HEAD"), "wb").write(b"not the ref\n"); trail.append(["root_file_named", "HEAD"]); ctx.count("root_file_named_HEAD")
         for i in range(n_ops):
+            if focus == "C19" and huge_at == i:
+                # a pending set whose stored form exceeds a megabyte: what update printed is what show returns, nothing less
+                hd = os.path.join(repo.repo, "d", "huge"); os.makedirs(hd, exist_ok=True)
+                for j in range(6000): open(os.path.join(hd, "%05d-%s" % (j, "n" * 170)), "wb").write(b"h%d\n" % (j % 7))
+                trail.append(["huge_untracked_set", 6000])
+                new = do_update(ctx, repo, rng, trail, focus, pending=True)
+                ok = new is not None and len(new.get("pending") or {}) >= 6000
+                rc, an, err, raw = vlib.monorail(repo.repo, "analyze", "--changes")
+                ok = ok and rc == 0 and bool(an) and an.get("checkpointed") is True and an.get("changes") == []
+                ctx.count("huge_pending_set")
+                ctx.record({"trail": list(trail), "what": "a checkpoint with 6000 pending paths (over 1 MiB stored) is returned whole and keeps working"}, True, ok, ok, True,
+                           sample={"pending_entries": len((new or {}).get("pending") or {}), "analyze_rc": rc}, detail={"analyze_rc": rc, "err": err, "update_ok": new is not None})
+                shutil.rmtree(hd)
+                continue
+            if focus == "C02" and wide_at == i:
+                # one list of untracked paths, then (committed) one list of changed paths, each far beyond one pipe read
+                trail.append(list(repo.apply(side, "bulkwide")))
+                eval_changes(ctx, repo, {}, focus, list(trail))
+                trail.append(list(repo.apply(rng, "addall"))); trail.append(list(repo.apply(rng, "commit")))
+                eval_changes(ctx, repo, {}, focus, list(trail))
+                ctx.count("wide_bulk_lists")
+                continue
             r = rng.random()
             if focus == "C19" and r < 0.35 or r < 0.12:
                 k = rng.random()
                 if k < 0.45:
                     do_update(ctx, repo, rng, trail, focus, with_id=(rng.choice(repo.commits) if rng.random() < 0.3 else None))
                 elif k < 0.55 and focus == "C19":
-                    failing_update(ctx, repo, rng, trail)
+                    if side.random() < 0.5: failing_update(ctx, repo, rng, trail)
+                    else: write_error_update(ctx, repo, side, trail)
                 elif k < 0.8:
                     had = show_checkpoint(repo) is not None
                     rc, out, err, raw = vlib.monorail(repo.repo, "checkpoint", "delete"); trail.append(["cp_delete"])
@@ -273,6 +346,11 @@ def scenario(ctx, sseed, focus):
                     if rng.random() < 0.5:
                         elsewhere = tempfile.mkdtemp(prefix="elsewhere-", dir=ctx.scratch)
                         os.makedirs(os.path.join(elsewhere, "monorail-out", "precious")); open(os.path.join(elsewhere, "monorail-out", "precious", "data"), "w").write("keep")
+                    tdir = os.path.join(repo.repo, "monorail-out", "tracking")
+                    if side.random() < 0.3 and os.path.isdir(tdir) and not os.path.islink(tdir):
+                        # the tracking directory lives somewhere else (a persistent cache) and is linked into the output directory
+                        cache = tempfile.mkdtemp(prefix="cache-", dir=ctx.scratch); os.rmdir(cache)
+                        shutil.move(tdir, cache); os.symlink(cache, tdir); trail.append(["tracking_dir_is_a_symlink"]); ctx.count("tracking_dir_symlinked")
                     rc, out, err, raw = vlib.monorail(repo.repo, "out", "delete", "--all", cwd=elsewhere); trail.append(["out_delete_all", "from another directory" if elsewhere else "from the repository root"])
                     ok = rc == 0 and show_checkpoint(repo) is None and (elsewhere is None or os.path.isfile(os.path.join(elsewhere, "monorail-out", "precious", "data")))
                     ctx.count("out_delete_from_" + ("elsewhere" if elsewhere else "root"))
@@ -306,6 +384,9 @@ def scenario(ctx, sseed, focus):
                     else:
                         tag = "v-%s" % c[:7]
                         subprocess.run(["git", "tag", "-f", tag, c], cwd=repo.repo, capture_output=True, env={**os.environ, **vlib.GIT_ENV}); al[c] = tag
+                        if side.random() < 0.5:
+                            # a file of that very name in the repository root: the name still denotes the revision
+                            open(os.path.join(repo.repo, tag), "wb").write(b"a file named like the tag\n"); trail.append(["root_file_named_like_revision", tag]); ctx.count("revision_name_is_also_a_file")
                 opts["alias"] = al; ctx.count("revision_by_alias")
             eval_changes(ctx, repo, opts, focus, list(trail))
     finally:
@@ -441,12 +522,12 @@ def run(ctx, scale, focus):
         for f in sorted(os.listdir(cdir)):
             scenario(ctx, json.load(open(os.path.join(cdir, f)))["scenario_seed"], focus)
     for i in range((n[0] if ctx.quick() else n[1]) * scale):
-        scenario(ctx, ctx.rng.getrandbits(32), focus)
+        scenario(ctx, ctx.rng.getrandbits(32), focus, force_huge=(focus == "C19" and i == 1))
 
 def replay(ctx, case, focus):
     c = case.get("case", case)
     trail = c.get("trail") or c.get("case", {}).get("trail")
     sseed = trail[0][1]
-    scenario(ctx, sseed, focus)
+    scenario(ctx, sseed, focus, force_huge=any(isinstance(t, list) and t and t[0] == "huge_untracked_set" for t in trail))
     return {"scenario_seed": sseed, "spec_failures": [d for _, d in ctx.spec_failures][:5], "disagreements": [d for _, d in ctx.tie_breaks][:5],
             "evaluations": ctx.evaluations}
